@@ -181,7 +181,9 @@ static void PAddr_Del(var self) {
 static var PAddr = Cello(PAddr, Instance(Alloc, PAddr_Alloc, PAddr_Dealloc), Instance(New, PAddr_New, PAddr_Del));
 
 /* embedded element holding a pointer (no constructor, no Mark: scanned as part of its container) */
-struct PEmb { var p; int64_t tag; };
+/* the reference is NOT in the first word, and the first word is zero for every other element: a scan of an embedded
+   element must cover all of it, whatever its first word looks like */
+struct PEmb { int64_t tag; var p; int64_t tail; };
 static var PEmb = Cello(PEmb);
 
 #endif
